@@ -7,6 +7,7 @@ Hashes, PBKDF2, the AEAD and curve arithmetic are opaque (only output lengths ar
 enters through the explicit hypothesis `AeadLaw`).
 -/
 import BipVerif.Lemmas.Cardano
+import BipVerif.Lemmas.Ecc
 import BipVerif.Driver.Cardano
 
 namespace BipVerif.Props.C18
@@ -99,49 +100,115 @@ theorem kholaw_child_left_spec (zl kl r : Bytes) (h : kholawNewLeft .kholaw zl k
     Bytes.toNatLE r = Bytes.toNatLE (zl.take 28) * 8 + Bytes.toNatLE kl ∧ r.length = 32 :=
   CardanoLemmas.kholaw_child_left_spec zl kl r h
 
-/-- it fails with `Bip32KeyError` iff the sum is `≡ 0 (mod L)` or needs more than 32 bytes
-(`≥ 2^256`; this second case raised `OverflowError` before the library fix) … -/
+/-- it fails with `Bip32KeyError` iff the sum is `≡ 0 (mod L)` or is `≥ 2^255` (bit 255 set, or
+more than 32 bytes).  History of this second case: originally a sum `≥ 2^256` raised `OverflowError`;
+the first library fix refused `≥ 2^256` with `Bip32KeyError`; the second one lowered the bound to
+`2^255`, the range of scalars of libsodium's no-clamp base-point multiplication … -/
 theorem kholaw_child_left_key_iff (zl kl : Bytes) :
     kholawNewLeft .kholaw zl kl = .error .key ↔
       (Bytes.toNatLE (zl.take 28) * 8 + Bytes.toNatLE kl) % edL = 0 ∨
-        2 ^ 256 ≤ Bytes.toNatLE (zl.take 28) * 8 + Bytes.toNatLE kl :=
+        2 ^ 255 ≤ Bytes.toNatLE (zl.take 28) * 8 + Bytes.toNatLE kl :=
   CardanoLemmas.kholaw_child_left_key_iff zl kl
 
-/-- … and never with `OverflowError`: a sum `≥ 2^256` is refused before `int.to_bytes` is reached -/
+/-- … and never with `OverflowError`: a sum `≥ 2^255` (a fortiori `≥ 2^256`) is refused before
+`int.to_bytes` is reached -/
 theorem kholaw_child_left_never_overflow (zl kl : Bytes) :
     kholawNewLeft .kholaw zl kl ≠ .error .overflow :=
   CardanoLemmas.kholaw_child_left_never_overflow zl kl
 
-/-- both reasons can hold at once: the sum `16·L` is `≥ 2^256` and `≡ 0 (mod L)`, reported as
-`Bip32KeyError` -/
+/-- both reasons can hold at once: the sum `8·L` is `≥ 2^255` and `≡ 0 (mod L)`, reported as
+`Bip32KeyError` (witness `zL = L - 2^252 + 1`, `kL = 2^255 - 8`; the theorem keeps the name it had
+when the bound was `2^256` and the witness `16·L`) -/
 theorem kholaw_child_left_key_above_2_256 :
     ∃ zl kl : Bytes, zl.length = 32 ∧ kl.length = 32 ∧
-      2 ^ 256 ≤ Bytes.toNatLE (zl.take 28) * 8 + Bytes.toNatLE kl ∧
+      2 ^ 255 ≤ Bytes.toNatLE (zl.take 28) * 8 + Bytes.toNatLE kl ∧
       (Bytes.toNatLE (zl.take 28) * 8 + Bytes.toNatLE kl) % edL = 0 ∧
       kholawNewLeft .kholaw zl kl = .error .key :=
   CardanoLemmas.kholaw_child_left_key_above_2_256
 
-/-- the size refusal on its own: a sum `≥ 2^256` that is not a multiple of `L` is reported as
-`Bip32KeyError` (the case that was `OverflowError` before the library fix) -/
+/-- the size refusal on its own: a sum `≥ 2^255` that is not a multiple of `L` is reported as
+`Bip32KeyError` (witness: `zL = 1`, `kL = 2^255 - 8`, sum exactly `2^255` — a sum the library
+accepted until the second fix; sums `≥ 2^256` were `OverflowError` before the first one) -/
 theorem kholaw_child_left_key_size_only :
     ∃ zl kl : Bytes, zl.length = 32 ∧ kl.length = 32 ∧
-      2 ^ 256 ≤ Bytes.toNatLE (zl.take 28) * 8 + Bytes.toNatLE kl ∧
+      2 ^ 255 ≤ Bytes.toNatLE (zl.take 28) * 8 + Bytes.toNatLE kl ∧
       (Bytes.toNatLE (zl.take 28) * 8 + Bytes.toNatLE kl) % edL ≠ 0 ∧
       kholawNewLeft .kholaw zl kl = .error .key :=
   CardanoLemmas.kholaw_child_left_key_size_only
 
+/-- the same witness read from the parent's side: a hand-supplied parent scalar that is a multiple
+of 8 and below `2^255` but has bit 253 set (no master key generator produces one) can meet the size
+refusal at its first child; this is why the chain theorems below assume `kL < 2^254 + 2^253` (what
+`master_clamped_*` give) and no longer just `kL < 2^255` -/
+theorem kholaw_size_refusal_below_2_255 :
+    ∃ zl kl : Bytes, zl.length = 32 ∧ kl.length = 32 ∧ Bytes.toNatLE kl < 2 ^ 255 ∧
+      8 ∣ Bytes.toNatLE kl ∧
+      (Bytes.toNatLE (zl.take 28) * 8 + Bytes.toNatLE kl) % edL ≠ 0 ∧
+      2 ^ 255 ≤ Bytes.toNatLE (zl.take 28) * 8 + Bytes.toNatLE kl ∧
+      kholawNewLeft .kholaw zl kl = .error .key :=
+  CardanoLemmas.kholaw_size_refusal_below_2_255
+
+/-- it succeeds iff the sum is `≢ 0 (mod L)` and below `2^255` (`2^256` before the second fix) -/
 theorem kholaw_child_left_ok_iff (zl kl : Bytes) :
     (∃ r, kholawNewLeft .kholaw zl kl = .ok r) ↔
       (Bytes.toNatLE (zl.take 28) * 8 + Bytes.toNatLE kl) % edL ≠ 0 ∧
-        Bytes.toNatLE (zl.take 28) * 8 + Bytes.toNatLE kl < 2 ^ 256 :=
+        Bytes.toNatLE (zl.take 28) * 8 + Bytes.toNatLE kl < 2 ^ 255 :=
   CardanoLemmas.kholaw_child_left_ok_iff zl kl
+
+/-- **the point of the `2^255` bound**: a successful new left half `r` has bit 255 clear.  libsodium's
+no-clamp base-point multiplication takes its 32-byte scalar mod `2^255` (`edNoClampScalar`), so with
+`r < 2^255` the public key of the private child is the true multiple `r·B = (kL + 8·zL[:28])·B` —
+the same point the public derivation computes as `A + (8·zL[:28])·B`.  Private and public derivation
+therefore agree for every parent key, hand-supplied ones included (with the earlier bound `2^256` a
+parent with a large `kL` could get a child with bit 255 set, whose public key was `(r - 2^255)·B`). -/
+theorem new_left_below_2_255 (zl kl r : Bytes) (h : kholawNewLeft .kholaw zl kl = .ok r) :
+    Bytes.toNatLE r < 2 ^ 255 :=
+  CardanoLemmas.kholaw_child_left_lt_2_255 zl kl r h
+
+/-- … hence the scalar libsodium multiplies by is the stored left half itself, whatever 32 bytes
+`kr` are appended as the right half (`Scheme` has no separate Icarus constructor: Cardano Icarus
+derivation is scheme `.kholaw` too, only its master key generator differs) -/
+theorem new_left_no_clamp_scalar (zl kl r kr : Bytes) (h : kholawNewLeft .kholaw zl kl = .ok r) :
+    edNoClampScalar (r ++ kr) = Bytes.toNatLE r ∧
+      edNoClampScalar (r ++ kr) = Bytes.toNatLE (zl.take 28) * 8 + Bytes.toNatLE kl := by
+  obtain ⟨hv, hl⟩ := CardanoLemmas.kholaw_child_left_spec zl kl r h
+  have ht : (r ++ kr).take 32 = r := by rw [← hl]; exact List.take_left
+  have he := EccLemmas.edNoClampScalar_eq (r ++ kr)
+    (by rw [ht]; exact CardanoLemmas.kholaw_child_left_lt_2_255 zl kl r h)
+  rw [ht] at he
+  exact ⟨he, by rw [he, hv]⟩
+
+/-- the same on real nodes: every child `c` that `ChildKey` derives from a private Khovratovich-Law
+(or Icarus) node — nothing is assumed about the parent key — holds a private key `k'` whose left
+half is below `2^255`, so the no-clamp scalar is that left half and the child's public key is the
+encoding of `kL'·B` -/
+theorem child_key_left_below_2_255 (nd c : Node) (idx : Nat) (k : Bytes)
+    (hs : nd.scheme = .kholaw) (hp : nd.priv = some k) (h : kholawChildKey nd idx = .ok c) :
+    ∃ k', c.priv = some k' ∧ Bytes.toNatLE (k'.take 32) < 2 ^ 255 ∧
+      edNoClampScalar k' = Bytes.toNatLE (k'.take 32) ∧
+      pubOfPriv .ed25519Kholaw k' =
+        (if edMulBase (Bytes.toNatLE (k'.take 32)) = edIdentity then none
+         else some (0 :: edEncode (edMulBase (Bytes.toNatLE (k'.take 32))))) :=
+  CardanoLemmas.kholawChildKey_kholaw_child_lt_2_255 nd c idx k hs hp h
+
+/-- and private/public commutation in its success form: under the point-layer law `KholawLaw` (see
+C04), whenever a private `.kholaw` node whose `pub` belongs to its private key has a non-hardened
+child `c`, the neutered node has the child `c.neuter` — no range hypothesis on `kL` is needed any
+more, the size test implies it -/
+theorem child_key_public_agrees (law : KholawLaw) (nd : Node) (k : Bytes) (idx : Nat)
+    (hcur : nd.curve = .ed25519Kholaw) (hsch : nd.scheme = .kholaw)
+    (hp : nd.priv = some k) (hpub : pubOfPriv .ed25519Kholaw k = some nd.pub)
+    (hh : isHardened idx = false) (c : Node) (hc : kholawChildKey nd idx = .ok c) :
+    kholawChildKey nd.neuter idx = .ok c.neuter :=
+  Model.kholaw_ckdPub_comm_of_ok law nd k idx hcur hsch hp hpub hh c hc
 
 /-- the only error class of the left half is `Bip32KeyError` -/
 theorem kholaw_child_left_error_kinds (zl kl : Bytes) (e : Err)
     (h : kholawNewLeft .kholaw zl kl = .error e) : e = .key :=
   kholaw_child_left_errors zl kl e h
 
-/-- multiples of 8 stay multiples of 8; each level adds less than `2^227` -/
+/-- multiples of 8 stay multiples of 8; each level adds less than `2^227` (the last clause dates
+from the `2^256` bound; by `new_left_below_2_255` its conclusion now holds unconditionally) -/
 theorem kholaw_child_invariant (zl kl r : Bytes) (h : kholawNewLeft .kholaw zl kl = .ok r) :
     (8 ∣ Bytes.toNatLE kl → 8 ∣ Bytes.toNatLE r) ∧
     Bytes.toNatLE kl ≤ Bytes.toNatLE r ∧
@@ -154,41 +221,59 @@ theorem kholaw_depth_bound (zs : List Bytes) (kl r : Bytes) (hm : Bytes.toNatLE 
     (h : kholawLeftChain zs kl = .ok r) : Bytes.toNatLE r < 2 ^ 255 + zs.length * 2 ^ 227 :=
   kholaw_depth_bound_master zs kl r hm h
 
-/-- hence `< 2^256` for every depth `≤ 255` … -/
+/-- a chain that succeeds ends `< 2^255` (it was `< 2^256` under the earlier bound, and then needed
+the depth limit; now every successful level is below `2^255` by the size test itself, so `hd` is
+kept only for the callers) … -/
 theorem kholaw_depth_bound_256 (zs : List Bytes) (kl r : Bytes) (hm : Bytes.toNatLE kl < 2 ^ 255)
-    (hd : zs.length ≤ 255) (h : kholawLeftChain zs kl = .ok r) : Bytes.toNatLE r < 2 ^ 256 :=
+    (hd : zs.length ≤ 255) (h : kholawLeftChain zs kl = .ok r) : Bytes.toNatLE r < 2 ^ 255 :=
   CardanoLemmas.kholaw_depth_bound_256 zs kl r hm hd h
 
-/-- … and the size refusal (sum `≥ 2^256`: `OverflowError` before the library fix, `Bip32KeyError`
-since) never happens along such a chain: at every level — after any prefix `pre` of the chain that
-succeeded with `r`, for the next `z` — the sum `8·z[:28] + r` is below `2^256` -/
-theorem kholaw_no_overflow (zs : List Bytes) (kl : Bytes) (hm : Bytes.toNatLE kl < 2 ^ 255)
+/-- … and the size refusal (sum `≥ 2^255`, `Bip32KeyError`; before the second library fix: sum
+`≥ 2^256`, and `OverflowError` before the first) never happens along a chain of at most 255 levels
+from a master scalar, i.e. from `kL < 2^254 + 2^253` (bit 255 clear, bit 253 clear, as
+`master_clamped_kholaw` / `master_clamped_icarus` give): at every level — after any prefix `pre` of
+the chain that succeeded with `r`, for the next `z` — the sum `8·z[:28] + r` is below `2^255`.
+The hypothesis was `kL < 2^255` for the `2^256` bound; for the `2^255` bound that is not enough
+(`kholaw_size_refusal_below_2_255`), the invariant `kL < kL₀ + d·2^227` needs the `2^253` of room
+a master key leaves. -/
+theorem kholaw_no_overflow (zs : List Bytes) (kl : Bytes)
+    (hm : Bytes.toNatLE kl < 2 ^ 254 + 2 ^ 253)
     (hd : zs.length ≤ 255)
     (pre : List Bytes) (z : Bytes) (post : List Bytes) (hzs : zs = pre ++ z :: post) (r : Bytes)
     (hr : kholawLeftChain pre kl = .ok r) :
-    Bytes.toNatLE (z.take 28) * 8 + Bytes.toNatLE r < 2 ^ 256 :=
+    Bytes.toNatLE (z.take 28) * 8 + Bytes.toNatLE r < 2 ^ 255 :=
   kholaw_no_overflow_master zs kl hm hd pre z post hzs r hr
 
 /-- so such a chain fails only with `Bip32KeyError`, at a level whose sum is `≡ 0 (mod L)` -/
-theorem kholaw_chain_error (zs : List Bytes) (kl : Bytes) (hm : Bytes.toNatLE kl < 2 ^ 255)
+theorem kholaw_chain_error (zs : List Bytes) (kl : Bytes)
+    (hm : Bytes.toNatLE kl < 2 ^ 254 + 2 ^ 253)
     (hd : zs.length ≤ 255) (e : Err) (h : kholawLeftChain zs kl = .error e) :
     e = .key ∧ ∃ pre z post r, zs = pre ++ z :: post ∧ kholawLeftChain pre kl = .ok r ∧
       (Bytes.toNatLE (z.take 28) * 8 + Bytes.toNatLE r) % edL = 0 ∧
-      Bytes.toNatLE (z.take 28) * 8 + Bytes.toNatLE r < 2 ^ 256 :=
+      Bytes.toNatLE (z.take 28) * 8 + Bytes.toNatLE r < 2 ^ 255 :=
   kholaw_chain_error_master zs kl hm hd e h
+
+/-- the general form: any start scalar and any chain with `kL + d·2^227 ≤ 2^255` -/
+theorem kholaw_no_overflow_general (zs : List Bytes) (kl : Bytes)
+    (hm : Bytes.toNatLE kl + zs.length * 2 ^ 227 ≤ 2 ^ 255)
+    (pre : List Bytes) (z : Bytes) (post : List Bytes) (hzs : zs = pre ++ z :: post) (r : Bytes)
+    (hr : kholawLeftChain pre kl = .ok r) :
+    Bytes.toNatLE (z.take 28) * 8 + Bytes.toNatLE r < 2 ^ 255 :=
+  CardanoLemmas.kholaw_no_overflow zs kl hm pre z post hzs r hr
 
 /-- the same on real nodes: a Khovratovich-Law master built by `kholawMasterKey` / `icarusMasterKey`
 followed by any derivation path of at most 255 indices never meets the size refusal.  At every node
 `n` reached by a prefix `pre` of the path (private, with key `k'`), the left half the next step
-(index `i`) computes is below `2^256`, so that step's `CKDpriv` can fail only with `Bip32KeyError`
-and only because the new left half is `≡ 0 (mod L)`  (`ckdZ n k' i` is the HMAC output `Z` of that
-step). -/
+(index `i`) computes is below `2^255` — the bound of the second library fix; a master scalar is
+below `2^254 + 2^253` and 255 levels add less than `255·2^227 < 2^253` — so that step's `CKDpriv`
+can fail only with `Bip32KeyError` and only because the new left half is `≡ 0 (mod L)`
+(`ckdZ n k' i` is the HMAC output `Z` of that step). -/
 theorem kholaw_master_path_no_overflow (seed : Bytes) (m : Node)
     (h : kholawMaster .kholaw kholawMasterKey seed = .ok m) (l : List Nat) (hl : l.length ≤ 255)
     (pre : List Nat) (i : Nat) (post : List Nat) (hsplit : l = pre ++ i :: post) (n : Node)
     (hn : pre.foldlM kholawChildKey m = .ok n) :
     ∃ k', n.priv = some k' ∧ n.scheme = .kholaw ∧
-      (Bytes.toNatLE (((ckdZ n k' i).take 32).take 28) * 8 + Bytes.toNatLE (k'.take 32)) < 2 ^ 256 ∧
+      (Bytes.toNatLE (((ckdZ n k' i).take 32).take 28) * 8 + Bytes.toNatLE (k'.take 32)) < 2 ^ 255 ∧
       ∀ e, kholawCkdPriv n k' i = .error e ↔
         e = .key ∧ (Bytes.toNatLE (((ckdZ n k' i).take 32).take 28) * 8 + Bytes.toNatLE (k'.take 32)) % edL = 0 :=
   CardanoLemmas.kholaw_master_path_no_overflow kholawMasterKey seed m
@@ -200,7 +285,7 @@ theorem icarus_master_path_no_overflow (seed : Bytes) (m : Node)
     (pre : List Nat) (i : Nat) (post : List Nat) (hsplit : l = pre ++ i :: post) (n : Node)
     (hn : pre.foldlM kholawChildKey m = .ok n) :
     ∃ k', n.priv = some k' ∧ n.scheme = .kholaw ∧
-      (Bytes.toNatLE (((ckdZ n k' i).take 32).take 28) * 8 + Bytes.toNatLE (k'.take 32)) < 2 ^ 256 ∧
+      (Bytes.toNatLE (((ckdZ n k' i).take 32).take 28) * 8 + Bytes.toNatLE (k'.take 32)) < 2 ^ 255 ∧
       ∀ e, kholawCkdPriv n k' i = .error e ↔
         e = .key ∧ (Bytes.toNatLE (((ckdZ n k' i).take 32).take 28) * 8 + Bytes.toNatLE (k'.take 32)) % edL = 0 :=
   CardanoLemmas.kholaw_master_path_no_overflow icarusMasterKey seed m
